@@ -109,9 +109,18 @@ structure Inv (s : St) : Prop where
   g3 : ∀ (b b' : Bid), s.sh.tok b = true → s.sh.duty b = false → s.sh.tok b' = true → s.sh.duty b' = false → b = b'
   g4 : s.sh.cnt ≤ 1
   g5 : 0 < s.sh.cnt → (∀ (t : Tid), carrierA (s.pcs t) = false) ∧ (∀ (b : Bid), s.sh.tok b = true → s.sh.duty b = true)
+  e1 : (if 0 < s.sh.cnt then 1 else 0) + cntOf s.n carrierA s.pcs + (if s.sh.pb.isSome then 1 else 0) = 1
+  e2 : ∀ (b : Bid), s.sh.pb = some b → s.sh.tok b = true ∧ s.sh.duty b = false
+  e3 : ∀ (b : Bid), s.sh.tok b = true → s.sh.duty b = false → s.sh.pb = some b
+  o1 : ∀ (b : Bid), b < s.sh.nextB → s.sh.aph b ≠ .a5 → s.sh.cons b = false → owns (s.pcs (s.sh.own b)) = some b ∧ s.sh.own b < s.n
+  k1 : ∀ (b : Bid), s.sh.cons b = true → s.sh.tok b = false ∧ s.sh.aph b = .a0 ∧ s.sh.vph b ≠ .v0 ∧ s.sh.vph b ≠ .v1
+  k2 : ∀ (t : Tid) (b : Bid), owns (s.pcs t) = some b → s.sh.cons b = false
 
-theorem inv_init (n i : Nat) (hi : i ≤ 1) : Inv (init n i) := by
-  constructor <;> simp [init, owns, wakes, okB, cntOf, atFsub, atPop, carrierA] <;> omega
+theorem inv_init (n : Nat) : Inv (init n 1) := by
+  have hz : cntOf n carrierA (fun _ => Pc.idle) = 0 := cntOf_zero_of n carrierA _ (by intro u _; rfl)
+  have hzF : cntOf n atFsub (fun _ => Pc.idle) = 0 := cntOf_zero_of n atFsub _ (by intro u _; rfl)
+  have hzP : cntOf n atPop (fun _ => Pc.idle) = 0 := cntOf_zero_of n atPop _ (by intro u _; rfl)
+  constructor <;> simp [init, owns, wakes, okB, atFsub, atPop, carrierA, hz, hzF, hzP]
 
 /-! the per-blocker product automaton: a finite table, checked exhaustively by the kernel -/
 structure Tup where
@@ -197,11 +206,13 @@ macro "prep" w:term : tactic => `(tactic|
    (try simp [hpc, owns, wakes, aphOf, vphOf, notPushed, kB] at hfrt); (try simp [hpc, owns, wakes, aphOf, vphOf, notPushed, kB] at hfwt)
    (try simp [hpc, owns, wakes, aphOf, vphOf, notPushed, kB] at hnq); (try simp [hpc, owns, wakes, aphOf, vphOf, notPushed, kB] at hn1t); (try simp [hpc, owns, wakes, aphOf, vphOf, notPushed, kB] at hn3t)))
 set_option hygiene false in
-macro "fin" : tactic => `(tactic| (constructor <;> simp only [] <;> first | grind [List.nodup_append, List.nodup_cons] | grind (splits := 40) [List.nodup_append, List.nodup_cons]))
+macro "fin" : tactic => `(tactic| (constructor <;> dsimp only <;> first | grind [List.nodup_append, List.nodup_cons] | grind (splits := 40) [List.nodup_append, List.nodup_cons]))
 set_option hygiene false in
 macro "destruct_hts" : tactic => `(tactic|
-  (cases e <;> simp only [tstep, contK] at hts <;> (try contradiction) <;> (repeat' split at hts) <;> (try contradiction) <;>
+  ((first
+     | (simp only [tstep, contK] at hts)                      -- program points whose step does not depend on the env
+     | (cases e <;> simp only [tstep, contK] at hts)) <;>
+   (try contradiction) <;> (repeat' split at hts) <;> (try contradiction) <;>
    (try simp only [Option.some.injEq, Prod.mk.injEq] at hts) <;> obtain ⟨rfl, rfl⟩ := hts))
-
 
 end MayVerif.Mutex
